@@ -1,6 +1,7 @@
 """C11 — scalar operator semantics and the broadcasting law.  See notes/C11.md (DESIGN.md section 6 C11)."""
 import json
 import math
+import os
 import sys
 
 import common as c
@@ -227,6 +228,57 @@ def law_expected(T, opi, a, b):
     return "OK:L[" + ",".join(r[3:] for r in rs) + "]"
 
 
+def parse_canon(t, tok):
+    """canonical value text (harness/src/show.rs) -> Gallina term; `tok(kind, hex)` names a leaf"""
+    def val(i):
+        ch = t[i]
+        if ch == "N":
+            return tok("N", t[i + 1:i + 17]), i + 17
+        if ch == "T":
+            return "(VBool true)", i + 1
+        if ch == "F" and not t.startswith("FN(", i):
+            return "(VBool false)", i + 1
+        if ch == "U":
+            return "VNull", i + 1
+        if ch == "S":
+            j = t.index(";", i)
+            return tok("S", t[i + 1:j]), j + 1
+        if ch == "B":
+            j = t.index(";", i)
+            return "(VBuiltin B_%s)" % t[i + 1:j], j + 1
+        if ch == "L":
+            i += 2
+            items = []
+            while t[i] != "]":
+                v, i = val(i)
+                items.append(v)
+                if t[i] == ",":
+                    i += 1
+            return "(VList [" + "; ".join(items) + "])", i + 1
+        if ch == "R":
+            i += 2
+            items = []
+            while t[i] != "}":
+                j = t.index(":", i)
+                v, i2 = val(j + 1)
+                items.append('(hx "%s", %s)' % (t[i:j], v))
+                i = i2
+                if t[i] == ",":
+                    i += 1
+            return "(VRec [" + "; ".join(items) + "])", i + 1
+        raise ValueError("unparsable canonical value at %d in %r" % (i, t[:80]))
+    v, i = val(0)
+    if i != len(t):
+        raise ValueError("trailing text in canonical value %r" % t[:80])
+    return v
+
+
+def outcome_term(r, tok):
+    if r.startswith("OK:"):
+        return "(Ok %s)" % parse_canon(r[3:], tok)
+    return {"ERR": "Err", "ERRDEPTH": "ErrDepth", "PANIC": "Panic"}.get(r, "Unmodelled")
+
+
 def shape_of(a, b):
     if a.k == "list" and b.k == "list":
         return "list-list" if len(a.p) == len(b.p) else "list-list-mismatch"
@@ -288,6 +340,25 @@ def main(argv):
     if hops != OPS:
         res.tie_broken("harness c11-ops disagrees with checks/c11.py OPS")
         return res.finish()
+
+    # ---- corpus first: minimised inputs that once distinguished a wrong implementation (mutation
+    # witnesses and hand-picked corners), with the lawful answer of each
+    corpus_n = 0
+    cpath = os.path.join(c.VERIF, "corpus", PID, "cases.json")
+    if os.path.exists(cpath):
+        with open(cpath) as f:
+            corpus = json.load(f)
+        outs = c.harness_lines_resilient(h, "c11-binop",
+                                         ["\t".join([c.hexs(k["a"]), c.hexs(k["b"])]) for k in corpus])
+        for k, o in zip(corpus, outs):
+            rs = o.split("|")
+            got = rs[OPS.index(k["op"])] if len(rs) == len(OPS) else o
+            corpus_n += 1
+            if got != k["expected"]:
+                res.violation("corpus case fails: `a %s b` (%s)" % (k["op"], k.get("why", "")),
+                              {"kind": "impl-law", "a": k["a"], "b": k["b"], "op": k["op"], "observed": got,
+                               "expected": k["expected"], "expected_from": "corpus/C11/cases.json",
+                               "rerun": "./check C11 --replay <this file>"})
 
     E = element_pool()
     SC = [x for x in E if x.k != "list"]
@@ -409,7 +480,7 @@ def main(argv):
     louts = c.harness_lines_resilient(h, "c11-binop", [line_of(cases[i][0], cases[i][1], True) for i in lit_idx])
 
     c.log("implementation runs done %.1fs" % (time.time() - t0))
-    evaluations = (len(tpairs) + len(cases) + len(lit_idx)) * len(OPS)
+    evaluations = (len(tpairs) + len(cases) + len(lit_idx) + corpus_n) * len(OPS)
     crashes = 0
     for (a, b, g), rs, raw in list(zip(cases, impl, couts)) + [((x, y, "T"), T[(x.src(), y.src())], o)
                                                                for (x, y), o in zip(tpairs, touts)]:
@@ -471,8 +542,31 @@ def main(argv):
     spec_idx += [rng.choice(all_idx) for _ in range(500 if not thorough else 5000)]
     g1 = chunks(all_idx)
     g2 = chunks(spec_idx)
-    exprs = ["agree_many P [%s]" % "; ".join('(%s, %s, "%s")' % (cq(cases[i][0]), cq(cases[i][1]), couts[i])
-                                             for i in g) for g in g1]
+    # the implementation's answers as value terms over named leaves (a ~1 kB string literal per pair
+    # costs ~25 ms inside coqc; identifiers cost nothing): numbers/strings seen at least 3 times are
+    # defined once per coqc process, the rest are written in place
+    import re
+    freq = {}
+    for i in all_idx:
+        for m in re.finditer(r"N[0-9a-f]{16}|S[0-9a-f]*;", couts[i]):
+            freq[m.group(0)] = freq.get(m.group(0), 0) + 1
+    for tk, n in sorted(freq.items()):
+        if n >= 3 or tk[0] == "S":
+            if tk[0] == "N":
+                defs.append("Definition n%s : value := Eval vm_compute in VNum (nb 0x%s)." % (tk[1:], tk[1:]))
+            else:
+                defs.append('Definition s%s_ : value := Eval vm_compute in VStr (hx "%s").' % (tk[1:-1], tk[1:-1]))
+
+    def tok(kind, hx_):
+        if kind == "N":
+            return "n" + hx_ if freq.get("N" + hx_, 0) >= 3 else "(VNum (nb 0x%s))" % hx_
+        return "s%s_" % hx_
+
+    def expected_term(i):
+        return "[" + "; ".join(outcome_term(r, tok) for r in impl[i]) + "]"
+
+    exprs = ["agree_many_v P [%s]" % "; ".join("(%s, %s, %s)" % (cq(cases[i][0]), cq(cases[i][1]), expected_term(i))
+                                               for i in g) for g in g1]
     sexprs = ["agree_spec_many P [%s]" % "; ".join("(%s, %s)" % (cq(cases[i][0]), cq(cases[i][1])) for i in g)
               for g in g2]
     model_ok = [None] * len(cases)
@@ -624,6 +718,7 @@ def main(argv):
     res.streams["impl-law-search"] = {
         "element_table_pairs": len(tpairs), "law_instances_checked": law_checked, "law_failures": law_fail,
         "scalar_reference_checked": sc_checked, "scalar_reference_failures": sc_fail, "crashes": crashes,
+        "corpus_cases": corpus_n,
     }
     res.assumptions = [
         "f64::powf (libm) is an oracle: the theorems hold for every powf; the stream compares against a table "
